@@ -13,7 +13,7 @@ from mitmproxy.proxy.layers import dns as dnslayer
 
 U16, U32 = 65535, 4294967295
 HOST = [b"www", b"example", b"com", b"ORG", b"mail", b"ns1", b"ns2", b"Host-1", b"_sip", b"_tcp", b"a", b"xn--bcher-kva", b"xn--mnchen-3ya", b"x" * 63]
-ODD = [b"xn--BCHER-kva", b"a.b", b"\xc3\xa9t\xc3\xa9", b"\xc0\x0c", b"xn--a", b"XN--A", b"caf\xe9", b" ", b"*"]
+ODD = [b"xn--BCHER-kva", b"xn--BcHEr-kVA", b"xn--MNCHEN-3ya", b"a.b", b"\xc3\xa9t\xc3\xa9", b"\xc0\x0c", b"xn--a", b"XN--A", b"caf\xe9", b" ", b"*"]
 CANNED_QUERY = struct.pack("!HHHHHH", 0x1234, 0x0100, 1, 0, 0, 0) + b"\x07example\x03com\x00\x00\x01\x00\x01"
 _OPTS = None
 
@@ -59,6 +59,16 @@ class Check(PropertyCheck):
                     "mitmproxy.proxy.layers.dns:pack_message"] + C25.Check.fingerprints
     trusted_base = C25.Check.trusted_base + ["harness/common/world.py as the stand-in for proxy/server.py's command interpreter"]
     parallel = False
+    case_timeout = 3               # the layer handles a message in milliseconds
+
+    def on_timeout(self, case):
+        # a message that is never handed on is not "delivered to the other side"
+        self._timeouts = getattr(self, "_timeouts", 0) + 1
+        return [f"the layer did not finish handling the segment within {self.case_timeout}s (nothing delivered)"]
+
+    def shrink_candidates(self, case):
+        if getattr(self, "_timeouts", 0): return iter(())
+        return super().shrink_candidates(case)
 
     def translate(self):
         return C25.Check().translate()
